@@ -191,7 +191,7 @@ macro_rules! impl_traits {
         impl Mean<$kind> for InvChiSquared {
             fn mean(&self) -> Option<$kind> {
                 if self.v > 2.0 {
-                    Some(1.0 / (self.v as $kind - 2.0))
+                    Some((1.0 / (self.v - 2.0)) as $kind)
                 } else {
                     None
                 }
